@@ -26,6 +26,11 @@ for n in names:
              "fullRunCanon_eq_runNode": "Run Flow_Exec runBatch runBatchSequential runExecWithRetries",
              "fullRun'_eq_runNode": "Run Flow_Exec runBatch runBatchSequential runExecWithRetries Flow_Prep Flow_Post BaseNode_GetMaxRetries BaseNode_GetWait BaseNode_ExecFallback",
              "fullRunCanon'_eq_runNode": "Run Flow_Exec runBatch runBatchSequential runExecWithRetries Flow_Prep Flow_Post BaseNode_GetMaxRetries BaseNode_GetWait BaseNode_ExecFallback",
+             "runBatch_over_interpreted_executors": "runBatch runBatchSequential runBatchConcurrent runExecWithRetries",
+             "runBatch_over_interpreted_executors'": "runBatch runBatchSequential runBatchConcurrent runExecWithRetries",
+             "fullRun2_eq_runNode": "Run Flow_Exec runBatch runBatchSequential runBatchConcurrent runExecWithRetries",
+             "fullRunCanon2_eq_runNode": "Run Flow_Exec runBatch runBatchSequential runBatchConcurrent runExecWithRetries",
+             "fullRun2'_eq_runNode": "Run Flow_Exec runBatch runBatchSequential runBatchConcurrent runExecWithRetries Flow_Prep Flow_Post BaseNode_GetMaxRetries BaseNode_GetWait BaseNode_ExecFallback",
              "runBatchSequential_over_interpreted_items": "runBatchSequential runExecWithRetries",
              "runBatch_over_interpreted_sequential": "runBatch runBatchSequential runExecWithRetries",
              "runBatchConcurrent_serial_over_interpreted_items": "runBatchConcurrent runExecWithRetries"}
